@@ -115,7 +115,9 @@ def make_copy_file(rule, build_inputs, buildfile, env):
     recipename = make.var('RULE_{}'.format(copier.rule_name.upper()))
 
     if hasattr(copier, 'transform_input'):
-        input_var = make.qvar('1')
+        # Arguments to `$(call ...)` are already shell-quoted as needed, so
+        # don't quote the parameter again: `''a b''` is an unquoted `a b`.
+        input_var = make.var('1')
         args = [copier.transform_input(rule.file, rule.raw_output)]
     else:
         input_var = make.qvar('<')
